@@ -485,3 +485,28 @@ pub fn report_stats(rep: &mut Report, pname: &str, st: &Stats, depth: usize) {
         );
     }
 }
+
+/// Re-executes one recorded operation list on its seed (replay of a violation artefact)
+pub fn replay_recorded(profile: &Profile, seed_name: &str, ops: &[Op]) -> Result<Vec<String>, String> {
+    let seed = profile.seeds.iter().find(|s| s.name == seed_name).ok_or_else(|| format!("no seed {seed_name} in profile {}", profile.name))?;
+    let built = build_seed(seed)?;
+    let backend = MemBackend::from_image(built.image.clone());
+    let mut it = Interp::attach(built.seed.cfg, backend, built.model.clone())?;
+    it.accounting = profile.accounting;
+    it.auto_rcheck = profile.flags.auto_rcheck;
+    it.abort_set_equality = profile.flags.abort_set_equality;
+    it.decode_every_commit = profile.flags.decode_every_commit;
+    for op in &built.seed.pre {
+        it.step(op).map_err(|e| format!("pre-op {}: {e}", op.short()))?;
+    }
+    let mut obs = vec![];
+    for op in ops {
+        obs.push(it.step(op).map_err(|e| format!("{}: {e}", op.short()))?);
+    }
+    finish_run(&mut it, profile, &built)?;
+    let cv = it.close();
+    if !cv.is_empty() {
+        return Err(format!("storage backend contract violated: {}", cv.join("; ")));
+    }
+    Ok(obs)
+}
